@@ -461,6 +461,9 @@ def check_path(ex, st, steps, Ds, cover):
                     Ds['reboot-needs-consent'].require(st, od, 'after an on-demand request the reboot question is asked with on-demand options')
                 elif not (thirty is not None and thirty.info['fired']):
                     bad('timers-follow-policy', 'the reboot question was re-asked although neither its 30-minute timer fired nor an on-demand request arrived')
+                    if k >= 2 and steps[k - 1].name == 'reply' and steps[k - 2].name == 'control-request' and steps[k - 2].info['on_demand'] == 0:
+                        # C11: only an on-demand request upgrades the pending reboot question and may trigger the reboot
+                        bad('reboot-needs-consent', 'a background (not on-demand) request during the reboot wait made the machine ask the reboot question')
         elif nm == 'ping_omaha':
             if mode != 'reboot':
                 bad('check-needs-consent', 'ping outside the reboot wait')
